@@ -1,4 +1,5 @@
 import Cgm.Lemmas.AuditCmd
 import Cgm.Props.C15
 import Cgm.Props.C15b
+import Cgm.Props.C15c
 #audit_namespace Cg.C15
